@@ -1516,6 +1516,13 @@ class Interp:
         r = SSeq(st.fresh_int("flen"), getter, None, lambda k: mk_int(G(V._z(n))), "filtersum")
         r.sum = lambda: mk_int(G(V._z(n)))
         st.assume(G(z3.IntVal(0)) == 0)
+        bound = getattr(seq.seq if isinstance(seq, LRef) else seq, "max_len", None)
+        if not isinstance(bound, int) and st.capture is None and not isinstance(n, int):
+            r0, _m = st._check(V._z(n) > 8, 500)
+            bound = 8 if r0 == z3.unsat else None
+        if isinstance(bound, int) and bound <= 64:
+            for j in range(bound):  # the length is symbolic but bounded by a small constant: unfold G completely
+                unfold(j)
         rec = View({"G": lambda k: mk_int(G(V._z(k))), "n": n, "term": term, "unfold": unfold, "node": e})
         st.ghost.setdefault("gen_sums", []).append(rec)
         return r
